@@ -570,6 +570,16 @@ impl Layer {
     /// The elements are visited in unsorted (and unspecified) order.
     pub fn retain(&mut self, f: impl FnMut(&Name, &mut Glyph) -> bool) {
         self.glyphs.retain(f);
+        // Keep the contents index and the path set in step with the glyph map.
+        let glyphs = &self.glyphs;
+        let path_set = &mut self.path_set;
+        self.contents.retain(|name, path| {
+            let keep = glyphs.contains_key(name);
+            if !keep {
+                path_set.remove(&path.to_string_lossy().to_lowercase());
+            }
+            keep
+        });
     }
 
     /// Returns the path to the .glif file of a given glyph `name`.
